@@ -36,6 +36,15 @@ CHECKS["C18"] = dict(level="model_checking", design="4/C18, 3.6", technique="rul
     text="spec/Rules.tla carries the five rule strings as regular-expression items and composes them per validator like the code; TLC checks UniqueDecomposition, UserExactlyOneKind, NoSeparatorInParts, LimitsExact on every string over the character-class alphabet up to the stated lengths and on ~100 boundary-length strings (254/255, 50/51, 256/257, multi-byte). Every string, instantiated with several representatives per class, is passed to the nine real validators: verdict vectors must equal TLC's and the decomposition clauses are re-evaluated on the real part validators. The rule strings and composition patterns extracted from the Go, TypeScript and Java sources are validated by TLC against the specification (RuleStringsAgree, PatternsAgree).",
     note="Trusted: TLC, the class alphabet (one symbol per class of characters the rules distinguish: RE2 \\s = blank \\t \\n \\f \\r; \\v and Unicode spaces are not generated). JS/Java: static comparison of rule strings and composition patterns only - neither runtime is installed.")
 
+MG_NOTE = ("Trusted: TLC, the Ideal layer of spec/Merge.tla (ConflictFree, Conflicts, MergedModel) as a reading of the statement, the canonical rendering of abstract files. "
+           "Bounded: all sequences of <= 3 (quick) / 4 (thorough) files from a pool of 18 abstract files + seeded random sets of 2-6 files. Syntax errors of one file are not 'conflicts' and need not name the file.")
+CHECKS["C07"] = dict(level="model_checking", design="4/C07, 3.4", technique="TLC model checking of a state-machine transcription of TransformModuleFilesToModel against a declarative Ideal layer over all file sets of a pool universe; every set replayed into the real merger",
+    text="spec/Merge.tla transcribes the two loops of the merger (map ranges explicit) and states ConflictFree / MergedModel / Conflicts declaratively; TLC checks NeverPanics, MergeSucceedsIffConflictFree, MergedIsAttributedUnion, ErrorNamesOffendingFile on every sequence of <= 3/4 pool files and on random larger sets. Each set is rendered by the specification and merged by the real code: verdict iff conflict-free, exact attributed union (type order, every relation with module/file and a per-file body marker, conditions, GetModuleForObjectTypeRelation, requested schema), error without model naming an offending file, never a panic.",
+    note=MG_NOTE)
+CHECKS["C12"] = dict(level="model_checking", design="4/C12, 3.4", technique="the Impl state machine of spec/Merge.tla has its map ranges as explicit choices (deterministic after the D6 fix: TLC finds one outcome per file set); the real merger is invoked 8-200 times per set and under every permutation of the file list",
+    text="TLC explores the Impl layer of the merger for every file set (one outcome per set: the ranges are ordered); the real merger is invoked repeatedly on every set of the universe and on random sets (30-200 times when several files carry extensions or conditions) and must return the identical model or the identical error list (messages, files, positions, order); all permutations of the file list must agree on success and, on success, on everything but the order of type definitions.",
+    note=MG_NOTE + " Go map iteration cannot be forced; it is sampled by repetition.")
+
 NOT_YET = "check not built yet in this round (see DESIGN.md section 9 for the order of work)"
 
 
